@@ -339,11 +339,15 @@ func (c *Client) Backup(ctx context.Context, br *command.BackupRequest, nodeAddr
 	}
 	gzr, err := gzip.NewReader(src)
 	if err != nil {
+		handleConnError(conn)
 		return err
 	}
 	defer gzr.Close()
 	gzr.Multistream(false)
-	_, err = io.Copy(dst, gzr)
+	if _, err = io.Copy(dst, gzr); err != nil {
+		// The rest of the stream may still arrive: this connection must not be reused.
+		handleConnError(conn)
+	}
 	return err
 }
 
@@ -633,12 +637,15 @@ func (c *Client) BroadcastHWM(ctx context.Context, hwm uint64, retries int, time
 
 				// Read response
 				p, err := readResponse(conn, timeout)
-				conn.Close()
 				if err != nil {
+					// Mark the connection unusable before it is closed, or it goes
+					// back to the pool with the late response still on its way.
 					handleConnError(conn)
+					conn.Close()
 					lastErr = err
 					continue
 				}
+				conn.Close()
 
 				// Parse response
 				resp := &proto.HighwaterMarkUpdateResponse{}
